@@ -299,6 +299,37 @@ def release_pairing(ctx, tabs):
                              % (rname, ty, row.get("owner")))
 
 
+def cfi_twin_keeps_release(ctx, tabs):
+    """C06/T2: a result row of the bufferify family that takes over ownership of the result (it hands {idtor} to the
+    array descriptor so that the copy helper releases the payload) has a CFI twin; the twin copies the payload into an
+    allocatable and must take over ownership too (use {idtor} / release the payload) -- otherwise an owner(caller)
+    result is never released on the F_CFI path."""
+    for lang, t in sorted(tabs.items()):
+        rows = t["rows"]
+        for rname, row in sorted(rows.items()):
+            if not (rname.startswith("c_") and rname.endswith("_result_buf_allocatable")):
+                continue
+            twin = rname.replace("_result_buf_allocatable", "_result_cfi_allocatable")
+            if twin not in rows:
+                continue
+            text = " ".join(row_text(row))
+            if "{idtor}" not in text:
+                continue
+            ttext = " ".join(row_text(rows[twin]))
+            pre = " ".join(x for x in row.get("pre_call") or [] if isinstance(x, str))
+            tpre = " ".join(x for x in rows[twin].get("pre_call") or [] if isinstance(x, str))
+            if re.search(r'=\s*new\b', pre) and not re.search(r'=\s*new\b', tpre):
+                # the bufferify row owns a heap copy it made itself (result by value); the twin keeps the value on the
+                # stack: nothing to release
+                ctx.item("C06/T2/%s/%s.takes-ownership" % (lang, twin), True, sample={"row": twin, "no heap copy": True})
+                continue
+            ok = "{idtor}" in ttext or re.search(r'\bdelete\b|\bfree\s*\(|memory_dtor|C_memory_dtor_function', ttext) is not None
+            ctx.item("C06/T2/%s/%s.takes-ownership" % (lang, twin), ok,
+                     "row %s hands {idtor} to the descriptor so that the payload is released after the copy; its CFI twin %s "
+                     "copies the payload and drops ownership" % (rname, twin),
+                     sample={"row": twin, "twin_of": rname})
+
+
 # ------------------------------------------------------------------------------------------------- C10 / T1
 CAP_LEN = "{c_var_len}"
 CAP_CFI = "{cfi_prefix}{c_var}->elem_len"
